@@ -619,8 +619,8 @@ Qed.
 
 Lemma file_pending_finished (cfg : file_config) : finished cfg -> file_pending cfg = [].
 Proof.
-  unfold finished, file_pending. induction 1 as [|ts l [Hc Ht] Hl IH]; cbn; auto.
-  unfold file_pending_thread. rewrite Hc, Ht, IH. reflexivity.
+  unfold finished, file_pending. induction 1 as [|ts l [Hc Ht] Hl IH]; cbn [flat_map]; auto.
+  rewrite IH. unfold file_pending_thread. rewrite Hc, Ht. reflexivity.
 Qed.
 
 (* concurrent FileDestination calls, each Write carrying one whole newline-terminated, newline-free line:
@@ -637,7 +637,7 @@ Theorem file_lines (progs : list (list (list byte))) (sched : list nat) :
 Proof.
   intros Hp cfg disk.
   assert (H : file_inv progs cfg).
-  { apply run_sched_ind; [intros; now apply file_inv_step|]. now apply file_inv_init. }
+  { unfold cfg, file_run. apply run_sched_ind; [intros; now apply file_inv_step|]. now apply file_inv_init. }
   destruct H as (H1 & H2 & _). split; [exact H1|]. split; [exact H2|].
   intros Hfin. fold disk in H2. rewrite (file_pending_finished cfg Hfin), app_nil_r in H2. exact H2.
 Qed.
